@@ -242,6 +242,51 @@ def run_codecs(ev, state, coords, job):
                 f'{got} / values differ from written {data[k].shape}')
   except Exception as e:  # pylint: disable=broad-except
     bad(f'covariate dataset round trip raised {type(e).__name__}: {str(e)[:160]}')
+  # 8. coordinate systems of every vertical type through dataset attributes
+  #    (and netCDF bytes): the discretisation must be reproduced
+  try:
+    import xarray
+    from dinosaur import layer_coordinates, sigma_coordinates, vertical_interpolation
+    for _ in range(2):
+      gcfg = gen.draw_grid_cfg(rng, 2, 24, model=False)
+      gcfg['offset'] = rng.choice([0.0, 0.1, float(np.pi / 7), rng.uniform(0, 1)])
+      gcfg['radius'] = rng.choice([None, 1.0, 2.5, rng.uniform(0.5, 3)])
+      grid = gen.build_grid(gcfg, coords.horizontal.spherical_harmonics_impl)
+      vk = rng.choice(['sigma', 'layer', 'pressure'])
+      n = rng.randint(1, 9)
+      if vk == 'sigma':
+        vert = sigma_coordinates.SigmaCoordinates(
+            np.asarray(gen.draw_sigma_boundaries(rng, n)))
+      elif vk == 'layer':
+        vert = layer_coordinates.LayerCoordinates(n)
+      else:
+        vert = vertical_interpolation.PressureCoordinates(
+            np.cumsum([rng.uniform(1, 200) for _ in range(n)]))
+      cs_ = coordinate_systems.CoordinateSystem(grid, vert)
+      ds = xarray.Dataset({'x': (('k',), np.arange(3.0))}, attrs=cs_.asdict())
+      if rng.random() < 0.5:
+        ds = xarray.load_dataset(ds.to_netcdf())
+      back = xarray_utils.coordinate_system_from_attrs(ds.attrs)
+      for f in ('longitude_wavenumbers', 'total_wavenumbers', 'longitude_nodes',
+                'latitude_nodes', 'latitude_spacing', 'longitude_offset', 'radius'):
+        a, b = getattr(cs_.horizontal, f), getattr(back.horizontal, f)
+        if (a != b) if isinstance(a, str) else (float(a) != float(b)):
+          out.append(('R-COORDS', f'{f} reconstructed from attrs as {b!r}, was {a!r} '
+                      f'({vk} vertical)'))
+      if type(back.vertical).__name__ != type(vert).__name__ or back.vertical.layers != vert.layers:
+        out.append(('R-COORDS', f'{vk} vertical reconstructed as '
+                    f'{type(back.vertical).__name__} with {back.vertical.layers} layers'))
+      else:
+        for attr in ('boundaries', 'centers'):
+          if hasattr(vert, attr) and not np.array_equal(
+              np.asarray(getattr(vert, attr), np.float64),
+              np.asarray(getattr(back.vertical, attr), np.float64)):
+            out.append(('R-COORDS', f'{vk} vertical {attr} not reproduced from attrs'))
+      if not (back.vertical == vert):
+        out.append(('R-COORDS', f'{vk} vertical reconstructed from attrs compares unequal'))
+  except Exception as e:  # pylint: disable=broad-except
+    out.append(('R-COORDS', f'coordinate-system attrs round trip raised '
+                f'{type(e).__name__}: {str(e)[:200]}'))
   return out
 
 
